@@ -222,6 +222,16 @@ let show_ctor kind args =
     let (s, r) = sock f in
     let (d, _) = sock r in
     Printf.sprintf "V1=%s V2=%s" (v1_addr (v1_of_pair s d)) (v2_addr (v2_of_pair s d))
+  | "pairrt", _ ->
+    let (s, r) = sock f in
+    let (d, _) = sock r in
+    let line = fmt1 (v1_of_pair s d) in
+    let r1 = (match p1s line with Ok h -> v1_addr h.addr | Err _ -> "ERR") in
+    let ra = (match addresses_from_str line with Ok a -> v1_addr a | Err _ -> "ERR") in
+    let (w, r2) = (match brun (CWith (version_or_command Proxy, PStream, v2_of_pair s d)) [] with
+      | BOk out -> (hexs out, (match p2 out with Ok h -> v2_addr h.haddresses | Err _ -> "ERR"))
+      | _ -> ("ERR", "ERR")) in
+    Printf.sprintf "L=%s R1=%s RA=%s W=%s R2=%s" (hexs line) r1 ra w r2
   | "hdr1", t :: a ->
     let h = header1_new (mbytes t) (addr1 a) in
     Printf.sprintf "H=%s %s" (hexs h.text) (v1_addr h.addr)
